@@ -12,7 +12,14 @@ def main():
     ap.add_argument('--replay')
     a = ap.parse_args()
     from . import runner
-    sys.exit(runner.run_check(a.prop.upper(), a.tier, a.seed, a.replay))
+    try:
+        rc = runner.run_check(a.prop.upper(), a.tier, a.seed, a.replay)
+    except Exception:      # a failure of the machinery is never a verdict about kyupy
+        import traceback
+        traceback.print_exc()
+        print(f'INCONCLUSIVE property={a.prop.upper()} reason=the check itself failed (see traceback)')
+        rc = 2
+    sys.exit(rc)
 
 
 if __name__ == '__main__':
